@@ -94,6 +94,8 @@ def run_scenarios(scenarios, wd, name="sc", per_scenario_timeout=20.0):
             hung = True
         if rc == 0:
             break
+        if rc == 3:
+            hung = True           # the harness watchdog saw no progress for 4 s inside one call into ax
         if rc == 2 and not hung:
             raise ToolError("harness usage/io error: " + p.stderr.decode(errors="replace")[-500:])
         # find the scenario in flight: number of "end" events written so far
